@@ -323,12 +323,17 @@ where
     let inner_allocs = ctx.rng.chance(1, 3);
     let small = ctx.rng.bool();
     let x = ctx.rng.next();
+    // every third inner allocation is as large as what is left of the current chunk: together with the slot it cannot
+    // fit, so the closure's block lands in another chunk while the slot stays in this one
+    let cross = inner_allocs && ctx.rng.chance(1, 3);
+    let cur_rem = ctx.view.typed.cur.map_or(0, |c| c.remaining).min(1 << 16);
+    let inner_size = move |dflt: usize| if cross { cur_rem.max(dflt) } else { dflt };
     ctx.begin(format!(
         "{}alloc_try_with<{}> closure returns {} {}",
         if t { "try_" } else { "" },
         if small { "u64" } else { "[u8;400]" },
         if want_ok { "Ok" } else { "Err" },
-        if inner_allocs { "after allocating inside" } else { "without allocating" }
+        if cross { "after an inner allocation that leaves the chunk" } else if inner_allocs { "after allocating inside" } else { "without allocating" }
     ));
     let entry = tuple_of(&ctx.view);
     let s: &BumpScope<'a, A, S> = &*scope;
@@ -342,7 +347,7 @@ where
         let f = move || -> Result<u64, u32> {
             ran_ref.set(true);
             if inner_allocs {
-                let l = Layout::from_size_align(24, 8).unwrap();
+                let l = Layout::from_size_align(inner_size(24), 8).unwrap();
                 if let Ok(p) = s.allocate(l) {
                     inner_ref.push((p.cast(), l));
                 }
@@ -361,7 +366,7 @@ where
         let f = move || -> Result<Payload, u32> {
             ran_ref.set(true);
             if inner_allocs {
-                let l = Layout::from_size_align(40, 4).unwrap();
+                let l = Layout::from_size_align(inner_size(40), 4).unwrap();
                 if let Ok(p) = s.allocate(l) {
                     inner_ref.push((p.cast(), l));
                 }
